@@ -49,6 +49,17 @@ def _child_opt(cfg, workdir):
             with torch.no_grad():
                 m.dm = m.dm + cfg["dm_fault"] * (n + n.transpose(-1, -2)) * m.dm.abs().max()
 
+    pre = cfg.get("pre_run")
+    if pre:
+        # the same optimiser object first optimises another molecule/batch (its evaluations are not traced)
+        pcfg = dict(cfg, batch=pre["batch"], only=None)
+        psp, pxyz = mdsim.build_batch(pcfg)
+        pmol = Molecule(Constants(), params, torch.as_tensor(pxyz), torch.as_tensor(psp, dtype=torch.int64))
+        import contextlib
+        import io
+
+        with contextlib.redirect_stdout(io.StringIO()):
+            opt.run(pmol, log=False)
     opt.esdriver.register_forward_hook(hook)
     ret = opt.run(mol, log=bool(cfg.get("log", True)))
     return {
@@ -95,6 +106,9 @@ def gen(rng, tier):
             cfg["pad_coords"] = True
     cfg["geom_seed"] = rng.randrange(1 << 20)
     cfg["log"] = rng.random() < 0.8
+    if not real and rng.random() < 0.3:
+        # reused optimiser object: same or other shape, other elements
+        cfg["pre_run"] = {"batch": rng.choice([mdsim.same_shape_batch(cfg["batch"], rng), rng.choice([["h2o"], ["ch4", "hf"], ["nh3"]])])}
     return cfg
 
 
@@ -180,6 +194,8 @@ def _execute(record, root):
         stats["probes"]["converged_on_last_allowed_evaluation"] = 1
     if not converged:
         stats["probes"]["cap_hit"] = 1
+    if cfg.get("pre_run"):
+        stats["probes"]["reused_optimiser_runs"] = 1
     # ---- returned values are those of the last evaluation -------------------------------------------
     fe, de = r["ret"]
     if abs(fe - maxF[-1]) > 1e-12 * max(1.0, maxF[-1]):
@@ -194,7 +210,7 @@ def _execute(record, root):
     if nmol > 1:
         m = record.get("solo", 0) % nmol
         # same start geometry: molecule m exactly as distorted/rotated in the batch, but alone and unpadded
-        rs, err2, _ = _run(dict(cfg, only=m), root, "solo")
+        rs, err2, _ = _run({k: v for k, v in dict(cfg, only=m).items() if k != "pre_run"}, root, "solo")
         if rs is None:
             failures.append(core.fail("run-failed", f"solo run raised {str(err2)[:200]}"))
         else:
